@@ -13,7 +13,7 @@ LEVEL = "proof"
 LEAN_MODULES = ["Exetera.Props.C20"]
 EXHAUSTIVE = {"quick": True, "thorough": True}
 MODES = {"quick": ["jit"], "thorough": ["jit"], "search": ["jit"]}   # date_time_helpers has no @njit kernels: one mode
-CASE_TIMEOUT = 20
+CASE_TIMEOUT = 60
 TECHNIQUE = ("Lean 4 theorems about an executable integer model of date_time_helpers.py + differential run of the compiled "
              "model against the real numpy/datetime code on the integer-second grid")
 LEVEL_TEXT = ("Proof, for all inputs, about the executable Lean model of the four date helpers over exact integer seconds: "
@@ -328,10 +328,18 @@ _S = {}
 
 def _env():
     if not _S:
-        import numpy as np
-        from datetime import datetime, timedelta
-        from exetera.processing import date_time_helpers as dth
-        _S.update(np=np, dth=dth, D=datetime, T=timedelta)
+        # the one-off import of exetera (pandas, numba, h5py) must not be interrupted by the worker's per-case alarm: on a
+        # loaded machine it can take longer than CASE_TIMEOUT and an interrupted import leaves half-initialised modules behind
+        import signal
+        left = signal.setitimer(signal.ITIMER_REAL, 0)[0]
+        try:
+            import numpy as np
+            from datetime import datetime, timedelta
+            from exetera.processing import date_time_helpers as dth
+            _S.update(np=np, dth=dth, D=datetime, T=timedelta)
+        finally:
+            if left > 0:
+                signal.setitimer(signal.ITIMER_REAL, left)
     return _S
 
 
